@@ -102,11 +102,11 @@ pub fn decode_fuse(t: &mut Tape) -> NetCase {
 pub fn check(ctx: &mut Ctx) {
     ctx.rule = "fuse: 2-25 rules sharing one token and one of 9 option sets but differing in pattern kind (plain, *, ^, /regex/, |, right-anchored), tag, exception, important, redirect, domain; std: C01-style lists up to 40 rules; live: Blocker::new(optimize=false) -> queries -> optimize() -> same queries. Differential oracle: optimised vs unoptimised engine, all verdict fields + csp set (debug text ignored; redirect ties free). Non-trivial = the optimised engine's answer was decided by a fused rule (debug text contains ' <+> ').".into();
     ctx.assumptions = vec!["both engines are built from the same parsed list; debug mode is on only to observe fusion".into()];
-    let n = ctx.tier.pick(40_000, 2_000_000);
+    let n = ctx.tier.pick(200_000, 2_500_000);
     drive(ctx, "fuse", n, 400, &decode_fuse, &check_case);
-    let n = ctx.tier.pick(20_000, 800_000);
+    let n = ctx.tier.pick(80_000, 1_000_000);
     drive(ctx, "std", n, 1200, &decode, &check_case);
-    let n = ctx.tier.pick(20_000, 800_000);
+    let n = ctx.tier.pick(100_000, 1_000_000);
     drive(ctx, "live", n, 400, &decode_fuse, &check_live);
 }
 
